@@ -15,7 +15,7 @@ for d in seeded/*/; do
   # some changes are, by their nature, only visible to another property's check
   alt=$(python3 -c "import json;print(' '.join(json.load(open('$d/meta.json')).get('checks',[])))")
   git -C $REPO checkout -q -- . ; 
-  if ! git -C $REPO apply $d/patch.diff 2>/dev/null; then echo "$id: PATCH DOES NOT APPLY"; continue; fi
+  if ! git -C $REPO apply "$(pwd)/$d/patch.diff" 2>/dev/null; then echo "$id: PATCH DOES NOT APPLY"; continue; fi
   detected=no
   for p in ${alt:-$prop}; do
     ./check $p quick > build/seeded-$id-$p.log 2>&1; rc=$?
